@@ -794,8 +794,10 @@ def parse_tree_to_objgraph(
 
         # Collect rules for textx-tools
         if inst is not None and metamodel.textx_tools_support:
+            # Nested objects are processed first: for objects sharing the same
+            # span keep the innermost one.
             pos = (inst._tx_position, inst._tx_position_end)
-            pos_rule_dict[pos] = inst
+            pos_rule_dict.setdefault(pos, inst)
 
         return inst
 
@@ -1013,9 +1015,10 @@ def parse_tree_to_objgraph(
             model._pos_crossref_list = pos_crossref_list
 
             # Dict for storing rules where key is position of rule instance in
-            # text. Sorted based on nested rules.
+            # text. Sorted based on nested rules: a span comes before every
+            # other span that contains it (later start first, then earlier end).
             model._pos_rule_dict = OrderedDict(
-                sorted(pos_rule_dict.items(), key=lambda x: x[0], reverse=True)
+                sorted(pos_rule_dict.items(), key=lambda x: (-x[0][0], x[0][1]))
             )
     # exception occurred during model creation
     except:  # noqa
